@@ -28,7 +28,7 @@ def main():
             return 3
         subprocess.run(["git", "-C", "/repo", "apply", os.path.join(d, "patch.diff")], check=True)
         try:
-            r = subprocess.run([os.path.join(VERIF, "check"), pid, "--tier", "quick", "--no-evidence"], capture_output=True, text=True, cwd=VERIF)
+            r = subprocess.run([os.path.join(VERIF, "check"), pid, "--tier", "quick", "--no-evidence"], capture_output=True, text=True, errors="replace", cwd=VERIF)
         finally:
             subprocess.run(["git", "-C", "/repo", "checkout", "--", "."], check=True)
         clauses = sorted({re.sub(r"^[^-]+-\d+-", "", os.path.basename(x))[:-5] for x in re.findall(r"replay=(\S+)", r.stdout)})
